@@ -135,6 +135,11 @@ fn build<W: World>(m: &Member, extra: &[Op]) -> VResult<W> {
 trait Observable: World {
     fn summary(&self, probe_to: u32) -> String;
     fn equals(&self, other: &Self) -> bool;
+    /// `==` with values that are only `PartialEq`: a map holding a NaN differs from itself and from
+    /// its clone (as for std's map), so no identity shortcut may answer `true`.
+    fn partial_eq_check(&self) -> Option<String> {
+        None
+    }
 }
 fn sorted_debug(s: String) -> Vec<String> {
     let inner = s.trim_start_matches('{').trim_end_matches('}');
@@ -157,6 +162,27 @@ impl<T: El> Observable for MapWorld<T> {
     }
     fn equals(&self, other: &Self) -> bool {
         self.m == other.m
+    }
+    fn partial_eq_check(&self) -> Option<String> {
+        let hb = crate::hasher::HB::new(self.cfg.hk, self.cfg.seed);
+        let mut plain: griddle::HashMap<u32, f64, crate::hasher::HB> = griddle::HashMap::with_hasher(hb.clone());
+        let mut nan = griddle::HashMap::with_hasher(hb);
+        // same insertion pattern as the member: keys in the order the map iterates them
+        let ks: Vec<(u32, u32)> = self.m.iter().map(|(k, v)| (k.id(), v.id())).collect();
+        for (i, &(k, v)) in ks.iter().enumerate() {
+            plain.insert(k, v as f64);
+            nan.insert(k, if i == ks.len() / 2 { f64::NAN } else { v as f64 });
+        }
+        let (pc, nc) = (plain.clone(), nan.clone());
+        #[allow(clippy::eq_op)]
+        let (a, b, c, d, e) = (plain == plain, plain == pc, nan == nan, nan == nc, plain == nan);
+        if !a || !b {
+            return Some(format!("f64-valued map without NaN: m == m is {}, m == clone is {}", a, b));
+        }
+        if !ks.is_empty() && (c || d || e) {
+            return Some(format!("f64-valued map holding a NaN: m == m is {}, m == clone is {}, plain == nan is {} (all must be false)", c, d, e));
+        }
+        None
     }
 }
 impl<T: El> Observable for SetWorld<T> {
@@ -248,6 +274,11 @@ fn run<W: Observable>(spec: &ShardSpec, cur: Option<&str>, set: bool) -> Outcome
                 hist.extend(recorded(&ms[ib], &[]));
                 let why: String = why.chars().take(160).collect();
                 fail(&mut out, "mismatch", format!("two collections holding the same {} elements are distinguishable ({})", n, why), hist);
+            }
+        }
+        for (i, w) in worlds.iter() {
+            if let Some(why) = w.partial_eq_check() {
+                fail(&mut out, "mismatch", why, recorded(&ms[*i], &[]));
             }
         }
         // transitivity on explicit triples (first 12 members)
@@ -345,9 +376,15 @@ pub fn replay_c14(spec: &ShardSpec, hist: &[Op]) -> VResult<()> {
         reset_exec();
         let base = spec.cfg();
         match hist.iter().position(|o| o.k == OpK::Clear && o.key == u32::MAX) {
-            None => build_recorded::<W>(&base, hist).map(|w| {
+            None => {
+                let w = build_recorded::<W>(&base, hist)?;
+                let pe = w.partial_eq_check();
                 w.discard();
-            }),
+                match pe {
+                    Some(why) => Err(Viol::new("mismatch", why)),
+                    None => Ok(()),
+                }
+            }
             Some(p) => {
                 let n = (hist[p].arg & 0xFFFF_FFFF) as u32;
                 let neg = hist[p].arg & NEG_FLAG != 0;
